@@ -62,10 +62,20 @@ func (r *Run) clockAdvance(fr *frame, d value) {
 			}
 			c.sec, c.nsec = s, total
 		} else {
-			if d%nsPerSec != 0 {
-				r.inconclusive("sub-second advance of a symbolic clock")
+			// the second is symbolic, the sub-second part stays concrete
+			total := c.nsec + d%nsPerSec
+			carry := d / nsPerSec
+			if total >= nsPerSec {
+				total -= nsPerSec
+				carry++
+			} else if total < 0 {
+				total += nsPerSec
+				carry--
 			}
-			c.sec = r.binop(fr, token.ADD, nil, c.sec, int64(d/nsPerSec))
+			c.nsec = total
+			if carry != 0 {
+				c.sec = r.binop(fr, token.ADD, nil, c.sec, int64(carry))
+			}
 		}
 	case Sym:
 		base, k, ok := r.scaledParts(d.T)
